@@ -926,6 +926,11 @@ func genTTMLDoc(t *rapid.T, write bool) ttmlDoc {
 func addEmptyLines(t *rapid.T, d *ttmlDoc) {
 	for i := range d.Cues {
 		c := &d.Cues[i]
+		if rapid.IntRange(0, 9).Draw(t, "contentless") == 0 {
+			// a paragraph without any content: a cue all the same (one line without runs)
+			c.Lines = [][]ttmlRun{{}}
+			continue
+		}
 		if rapid.IntRange(0, 3).Draw(t, "emptyline") == 0 {
 			at := rapid.IntRange(0, len(c.Lines)).Draw(t, "emptyat")
 			ls := append([][]ttmlRun(nil), c.Lines[:at]...)
